@@ -12,7 +12,7 @@ ID = "C17"
 LEVEL = "exploration"
 RULE = ("Hypothesis-generated pre-copy histories (<=8 ops: sets, single- and multi-key updates, in-place mutations of list/dict "
         "values, per-instance Parameter edits (bounds, Selector objects incl. unlabelled additions to dict-declared objects), sub-object attach/replace/detach and leaf sets, a user "
-        "watcher, ordinary-attribute writes) x copy mechanism (deepcopy, pickle protocols 2-5) x diverging post-copy histories "
+        "watcher, a watcher that is a functools.partial of one of the object's own methods, ordinary-attribute writes; the classes customise their state the usual way: __getstate__ drops an attribute, __setstate__ puts it back) x copy mechanism (deepcopy, pickle protocols 2-5) x diverging post-copy histories "
         "(<=8 ops, each aimed at the original, the copy or an optional second copy - of the copy or of the original -, optionally while a batch / discard_events context is open on another of these objects) over importable classes with depends(watch=True) methods on a value, "
         "on two values, on a Parameter attribute and (class Par) on a parameter of the attached sub-object; oracle = the copy "
         "succeeds, equality without shared mutable state at copy time, each side equals its own model afterwards, and each "
@@ -33,6 +33,10 @@ _ops = st.one_of(
     st.tuples(st.just("detach"),), st.tuples(st.just("sub_x"), _k), st.tuples(st.just("sub_y"), _k),
     st.tuples(st.just("watch"),), st.tuples(st.just("extra"), _k), st.tuples(st.just("set_s"), st.integers(1, 3)),
     st.tuples(st.just("sd_append"), _k), st.tuples(st.just("sd_setval"), _k), st.tuples(st.just("sd_setkey"), _k),
+    # the default of the open-ended selector is taken out of its objects on this instance
+    st.tuples(st.just("sd_remove_default"),),
+    # a watcher whose callback is functools.partial(<a method of the object itself>, tag)
+    st.tuples(st.just("watch_partial"), _k),
 ).map(list)
 
 
@@ -65,6 +69,7 @@ class Side:
         self.sub = None            # None or [x, y]
         self.extra = {"n": 0}
         self.user_watchers = 0
+        self.partials = []
         self.has_subdep = has_subdep
 
     def clone(self):
@@ -85,6 +90,7 @@ def _apply(op, obj, m, marks):
         m.a = v
         if changed:
             exp += [("on_a", v), ("on_a_free", v, m.free)] + [("user_cb", "a", v)] * m.user_watchers
+            exp += [("note", tag_, v) for tag_ in m.partials]
     elif k == "set_free":
         v = op[1]
         changed = v != m.free
@@ -98,7 +104,7 @@ def _apply(op, obj, m, marks):
         obj.param.update(a=v, free=v + 100)
         m.a, m.free = v, v + 100
         if ca:
-            exp += [("on_a", v)] + [("user_cb", "a", v)] * m.user_watchers
+            exp += [("on_a", v)] + [("user_cb", "a", v)] * m.user_watchers + [("note", tag_, v) for tag_ in m.partials]
         if ca or cf:
             exp += [("on_a_free", v, v + 100)]       # exactly once for the batch
         marks.add("multi_param_batch")
@@ -142,6 +148,19 @@ def _apply(op, obj, m, marks):
             m.sd_objects.append(v)
         marks.add("per_instance_parameter")
         marks.add("unlabelled_selector_object")
+    elif k == "sd_remove_default":
+        if 1 in m.sd_objects and m.sd != 1:
+            obj.param.sd.objects.remove(1)
+            m.sd_objects.remove(1)
+            marks.add("per_instance_parameter")
+            marks.add("selector_default_removed_from_objects")
+    elif k == "watch_partial":
+        import functools
+        tag_ = f"t{op[1]}"
+        if tag_ not in m.partials:
+            obj.param.watch(functools.partial(obj.note, tag_), ["a"])
+            m.partials.append(tag_)
+            marks.add("partial_of_own_method_as_watcher")
     elif k == "sd_setkey":
         v = 50 + op[1]
         if v not in m.sd_objects:
@@ -192,13 +211,14 @@ def _state(obj):
     return {"a": obj.a, "free": obj.free, "l": list(obj.l), "d": dict(obj.d), "s": obj.s,
             "bounds": obj.param.a.bounds, "objects": list(obj.param.s.objects), "sd": obj.sd,
             "sd_objects": list(obj.param.sd.objects), "sd_range": list(obj.param.sd.get_range().values()),
-            "sub": None if obj.sub is None else [obj.sub.x, obj.sub.y], "extra": dict(obj.extra)}
+            "sub": None if obj.sub is None else [obj.sub.x, obj.sub.y], "extra": dict(obj.extra),
+            "has_lock": getattr(obj, "_lock", None) == ["not part of the state"]}
 
 
 def _model_state(m):
     return {"a": m.a, "free": m.free, "l": list(m.l), "d": dict(m.d), "s": m.s, "bounds": m.bounds, "objects": list(m.objects),
             "sd": m.sd, "sd_objects": list(m.sd_objects), "sd_range": list(m.sd_objects),
-            "sub": None if m.sub is None else list(m.sub), "extra": dict(m.extra)}
+            "sub": None if m.sub is None else list(m.sub), "extra": dict(m.extra), "has_lock": True}
 
 
 def execute(case):
